@@ -316,10 +316,18 @@ def gen_map_cases(rng, n):
     # single int out_axes with None entries in the output (regression of the first version of the fix)
     cases.append({"fn": 5, "B": 3, "leaves": [{"shape": [2], "ax": 0}], "out": [0, 0], "in_form": "int", "out_form": "int"})
     cases.append({"fn": 5, "B": 2, "leaves": [{"shape": [2, 2], "ax": 1}], "out": [0, 0], "in_form": "tuple", "out_form": "int"})
+    # negative axes (counted from the end, as in jax.vmap), outputs of rank 0..3 per slice
+    cases.append({"fn": 1, "B": 2, "leaves": [{"shape": [2, 3], "ax": 0}], "out": [2, 0, 1], "out_neg": [True, True, True],
+                  "in_form": "tuple", "out_form": "tuple"})
+    cases.append({"fn": 2, "B": 2, "leaves": [{"shape": [2, 2], "ax": 2, "neg": True}, {"shape": [2, 2], "ax": 1, "neg": True}, {"shape": [2, 2], "ax": 0}],
+                  "out": [2, 1, 2], "out_neg": [True, True, False], "in_form": "tuple", "out_form": "tuple"})
+    cases.append({"fn": 1, "B": 3, "leaves": [{"shape": [2, 1, 2], "ax": 3, "neg": True}], "out": [3, 0, 2], "out_neg": [True, False, True],
+                  "in_form": "tuple", "out_form": "tuple"})
+    nfixed = len(cases)
     while len(cases) < n:
         fid = int(rng.integers(0, 6))
         B = int(rng.integers(1, 4))
-        base = [int(x) for x in rng.integers(1, 4, size=int(rng.integers(0, 3)))]
+        base = [int(x) for x in rng.integers(1, 4, size=int(rng.integers(0, 4)))]
 
         def ax(shape, allow_none=True):
             if allow_none and rng.random() < 0.45:
@@ -369,6 +377,14 @@ def gen_map_cases(rng, n):
                 cases.append({"fn": 4, "B": B, "leaves": leaves, "out": out, "in_form": "tuple", "out_form": "none"})
                 continue
         cases.append({"fn": fid, "B": B, "leaves": leaves, "out": out, "in_form": "tuple", "out_form": "tuple"})
+    # pass a part of the axes as negative numbers (the description keeps the canonical non-negative axis)
+    for c in cases[nfixed:]:
+        if c["in_form"] == "tuple":
+            for l in c["leaves"]:
+                if l["ax"] is not None and rng.random() < 0.4:
+                    l["neg"] = True
+        if c["out_form"] == "tuple":
+            c["out_neg"] = [bool(o is not None and rng.random() < 0.5) for o in c["out"]]
     return cases
 
 
@@ -383,17 +399,24 @@ def build_map_inputs(case, rng_seed):
 
 def call_map(mapper, case, arrs):
     f = map_functions()[case["fn"]]
-    axs = [l["ax"] for l in case["leaves"]]
+    axs = [(l["ax"] - (len(l["shape"]) + 1)) if (l.get("neg") and l["ax"] is not None) else l["ax"] for l in case["leaves"]]
+    outs = list(case["out"])
+    if any(case.get("out_neg", [])):
+        # rank of every output leaf per slice, from the function applied to one slice
+        sl = [a if l["ax"] is None else np.take(a, 0, axis=l["ax"]) for l, a in zip(case["leaves"], arrs)]
+        probe = f((sl[0], sl[1]), sl[2]) if case["fn"] == 3 else f(*sl)
+        ranks = [np.ndim(x) for x in leaves_of(probe)]
+        outs = [(o - (r + 1)) if (neg and o is not None) else o for o, r, neg in zip(outs, ranks, case["out_neg"])]
     if case["fn"] == 3:
         # nested pytree argument and output; the axis specifications are nested TUPLES: smap is
         # jitted with in_axes / out_axes as static (hashable) arguments, dicts are rejected there
         args = ((arrs[0], arrs[1]), arrs[2])
         in_axes = ((axs[0], axs[1]), axs[2])
-        out_axes = ((case["out"][0], case["out"][1]), case["out"][2])
+        out_axes = ((outs[0], outs[1]), outs[2])
     else:
         args = tuple(arrs)
         in_axes = tuple(axs)
-        out_axes = tuple(case["out"])
+        out_axes = tuple(outs)
     if case["fn"] == 5:
         out_axes = (None, case["out"][0], None, case["out"][1])
     if case["in_form"] == "int":
@@ -460,10 +483,12 @@ def map_direct(case, obs):
         return fails          # not a valid vmap call: nothing to compare with
     for name in ("smap", "lmap"):
         s = obs[name]
-        branch = "out_axes-None" if (None in case["out"]) else "int-axes"
+        neg = any(l.get("neg") for l in case["leaves"]) or any(case.get("out_neg", []))
+        branch = "out_axes-None" if (None in case["out"]) else ("negative-axes" if neg else "int-axes")
         if isinstance(s, Exception):
             fails.append(({"fn": name, "branch": branch}, "%s raises %s where jax.vmap returns a result (fn %d, in_axes %s, out_axes %s)" % (
-                name, type(s).__name__, case["fn"], [l["ax"] for l in case["leaves"]], case["out"] if case["out_form"] != "none" else None), None))
+                name, type(s).__name__, case["fn"], [l["ax"] for l in case["leaves"]], case["out"] if case["out_form"] != "none" else None)
+                + (" (axes marked neg are passed counted from the end: in %s, out %s)" % ([bool(l.get("neg")) for l in case["leaves"]], case.get("out_neg")) if neg else ""), None))
             continue
         ok = len(s) == len(v) and all(a.shape == b.shape and np.array_equal(a, b) for a, b in zip(s, v))
         if not ok:
@@ -471,7 +496,8 @@ def map_direct(case, obs):
             fails.append(({"fn": name, "branch": branch},
                           "%s differs from jax.vmap: fn %d, in_axes %s, out_axes %s: output %d is %s, vmap gives %s" % (
                               name, case["fn"], [l["ax"] for l in case["leaves"]], case["out"] if case["out_form"] != "none" else None, k,
-                              np.asarray(s[k]).tolist() if k < len(s) else None, np.asarray(v[k]).tolist()), None))
+                              np.asarray(s[k]).tolist() if k < len(s) else None, np.asarray(v[k]).tolist())
+                          + (" (axes passed counted from the end: in %s, out %s)" % ([bool(l.get("neg")) for l in case["leaves"]], case.get("out_neg")) if neg else ""), None))
     return fails
 
 
@@ -530,7 +556,7 @@ class C33(C.Check):
             s = float(rng.integers(-3, 4)) + (1j * float(rng.integers(-3, 4)) if cplx else 0.0)
             vec.append((a, b, s, cplx))
         maps = [c["case"] for c in ctx.corpus() if c.get("kind") == "map"]
-        maps += [m for m in gen_map_cases(rng, 36 if ctx.quick else 300) if m not in maps]
+        maps += [m for m in gen_map_cases(rng, 44 if ctx.quick else 300) if m not in maps]
         return vec, maps
 
     def correspondence(self, ctx, res):
@@ -594,6 +620,9 @@ class C33(C.Check):
             "input_distribution": {"vector_pairs": len(self.vec), "complex_pairs": sum(1 for v in self.vec if v[3]),
                                    "map_cases": len(self.maps), "map_cases_with_None_out_axes": none_cases,
                                    "map_cases_with_None_in_axes": sum(1 for c in self.maps if any(l["ax"] is None for l in c["leaves"])),
+                                   "map_cases_with_negative_in_axes": sum(1 for c in self.maps if any(l.get("neg") for l in c["leaves"])),
+                                   "map_cases_with_negative_out_axes": sum(1 for c in self.maps if any(c.get("out_neg", []))),
+                                   "max_output_rank": max(len(l["shape"]) + 1 for c in self.maps for l in c["leaves"]),
                                    "fn_ids": sorted({c["fn"] for c in self.maps})},
             "disagreements": len(bad),
         })
